@@ -10,3 +10,10 @@ package keeper
 //@ func (Keeper).ClaimRewards
 //@ modifies module:commitment, module:masterchef, bank-balances
 //@ frame-only
+
+// Fee conversion in block processing: each swap works on a pool just read from the store.
+//@ func (Keeper).ConvertGasFeesToUsdc
+//@ entry
+//@ forall p Int
+//@ decabstract
+//@ ensures C02/total-shares-track-supply: shareGap(ctx, p) == old(shareGap(ctx, p))
